@@ -25,10 +25,12 @@
 (*   Stream    StreamChunkedReadResponses: the chunks of a series that     *)
 (*             overlap [lo, hi], cut into frames by the byte budget, one   *)
 (*             ChunkedSeries per frame                                     *)
-(*   Decode    NewChunkedSeriesSet: ONE SERIES PER FRAME, samples trimmed  *)
-(*             to [lo, hi] by chunkedSeriesIterator                        *)
-(* Named deviation KF_C42_1: a series whose chunks were split over several *)
-(* frames comes out of the client as several series with the same labels.  *)
+(*   Decode    NewChunkedSeriesSet: consecutive frames with equal labels   *)
+(*             are re-assembled into one series, samples trimmed to        *)
+(*             [lo, hi] by chunkedSeriesIterator                           *)
+(* (Until commit 25688644ac every frame became a series of its own, so a   *)
+(* series split over frames came out as several series with the same       *)
+(* labels: former known finding KF-C42-1.)                                 *)
 (***************************************************************************)
 EXTENDS Integers, Sequences, FiniteSets, TLC, Json
 
@@ -131,10 +133,19 @@ Serve ==
   /\ pc' = "served"
   /\ UNCHANGED <<data, slot, lay, q, exp, streamed>>
 
-\* NewChunkedSeriesSet: every frame becomes a series; chunkedSeriesIterator drops samples outside [mint, maxt]
+\* NewChunkedSeriesSet: consecutive frames with the same labels are one series (chunkedSeriesSet.Next looks one
+\* frame ahead since commit 25688644ac; before, every frame became a series of its own - formerly KF-C42-1);
+\* chunkedSeriesIterator drops samples outside [mint, maxt]
+RECURSIVE Assemble(_)
+Assemble(fs) ==
+  IF fs = <<>> THEN <<>>
+  ELSE LET n == CHOOSE k \in 1..Len(fs) : /\ \A j \in 1..k : fs[j].l = fs[1].l
+                                          /\ (k = Len(fs) \/ fs[k + 1].l # fs[1].l)
+       IN <<[l |-> fs[1].l, chunks |-> Concat([j \in 1..n |-> fs[j].chunks])]>> \o Assemble(SubSeq(fs, n + 1, Len(fs)))
 Decode ==
   /\ pc = "served"
-  /\ streamed' = [k \in 1..Len(frames) |-> [l |-> frames[k].l, samples |-> Trim(Concat(frames[k].chunks))]]
+  /\ streamed' = LET as == Assemble(frames)
+                 IN [k \in 1..Len(as) |-> [l |-> as[k].l, samples |-> Trim(Concat(as[k].chunks))]]
   /\ pc' = "done"
   /\ UNCHANGED <<data, slot, lay, q, exp, sampled, frames>>
 
@@ -146,9 +157,11 @@ Spec == Init /\ [][Next]_vars
 NonEmpty(r) == SelectSeq(r, LAMBDA x : x.samples # <<>>)
 SampledMatchesRef  == pc = "done" => NonEmpty(sampled) = Expected
 StreamedMatchesRef == pc = "done" => NonEmpty(streamed) = Expected
-\* a series split over several frames (more than one overlapping chunk and a tiny frame budget)
-KF_C42_1 == pc = "done" /\ \E j, k \in 1..Len(frames) : j # k /\ frames[j].l = frames[k].l
-Conforms == (SampledMatchesRef /\ StreamedMatchesRef) \/ KF_C42_1
+\* a series split over several frames (more than one overlapping chunk and a tiny frame budget): these are the
+\* cases in which the former defect KF-C42-1 showed; kept as a coverage predicate, no longer an excuse
+SplitSeries == pc = "done" /\ \E j, k \in 1..Len(frames) : j # k /\ frames[j].l = frames[k].l
+NoDuplicateSeries == pc = "done" => \A j, k \in 1..Len(streamed) : j # k => streamed[j].l # streamed[k].l
+Conforms == SampledMatchesRef /\ StreamedMatchesRef
 \* even then nothing is lost or invented: per label set the streamed samples concatenate to the expected ones
 StreamedSamplesComplete == pc = "done" =>
   \A s \in Sers : Concat([k \in 1..Len(SelectSeq(streamed, LAMBDA x : x.l = s)) |-> SelectSeq(streamed, LAMBDA x : x.l = s)[k].samples])
@@ -157,7 +170,7 @@ StreamedSamplesComplete == pc = "done" =>
 
 -----------------------------------------------------------------------------
 Case == [data |-> [k \in 1..NSer |-> [l |-> SerSeq[k], samples |-> data[SerSeq[k]]]], per |-> PerSlot, q |-> q,
-         kf |-> IF KF_C42_1 THEN {"KF_C42_1"} ELSE {},
+         kf |-> {}, split |-> SplitSeries,
          ref |-> Expected, nchunks |-> [k \in 1..NSer |-> Len(lay[SerSeq[k]])],
          code |-> [sampled |-> NonEmpty(sampled), streamed |-> NonEmpty(streamed)]]
 Emit == \/ EmitMode # "done"
